@@ -24,6 +24,7 @@ BUDGET = {"quick": 900, "thorough": 3600}
 TRUSTED = ["AddressSanitizer / UndefinedBehaviorSanitizer (gcc), harness main loop (deep-compare, refcount sum, heap balance)"]
 
 LONG = [1023, 1024, 1025, 1040, 1041, 1368, 65536]
+LIMIT_MS = 15000     # RSA keys with nonsensical private members can keep OpenSSL busy for minutes: such calls are cut off and counted
 READ_ONLY = ("jws.ver", "jws.ver_io", "jws.hdr", "jwe.hdr", "jwe.dec", "jwe.dec_jwk", "jwe.dec_cek", "jwe.dec_cek_io", "jwk.thp",
              "jwk.thp_buf", "jwk.eql", "jwk.prm", "jwk.exc", "ossl.roundtrip", "b64.dec", "b64.dec_load", "b64.enc_dump")
 JSON_ARGS = ("jws", "sig", "jwk", "jwe", "rcp", "cek", "prv", "pub", "a", "b", "i")
@@ -109,6 +110,11 @@ def bases(ctx, rng):
     prod.append(("jwe.enc", {"jwe": {"protected": {"enc": "A128GCM"}}, "rcp": {"header": {"kid": "r"}}, "jwk": [pool["oct-16"], pool["EC-P256"], pool["RSA-2048"]],
                              "pt": "00", "rand": rng.randbytes(400).hex()}))
     prod.append(("jwe.enc_jwk", {"jwe": {"protected": {"enc": "A256GCM"}}, "rcp": {}, "jwk": pool["oct-32"], "cek": {}, "rand": rng.randbytes(300).hex()}))
+    # one template per key (the library completes each of them in place)
+    prod.append(("jwe.enc_jwk", {"jwe": {"protected": {"enc": "A128GCM"}}, "rcp": [{"header": {"kid": "a"}}, {}, {"header": {"kid": "c"}}],
+                                 "jwk": [pool["oct-16"], pool["EC-P256"], pool["oct-32"]], "cek": {}, "rand": rng.randbytes(500).hex()}))
+    prod.append(("jwe.enc", {"jwe": {"protected": {"enc": "A128GCM"}}, "rcp": [{}, {"header": {"kid": "b"}}], "jwk": {"keys": [pool["oct-16"], pool["RSA-2048"]]},
+                             "pt": "0011", "rand": rng.randbytes(500).hex()}))
     prod.append(("jwe.enc_cek", {"jwe": {"protected": {"enc": "A128CBC-HS256"}}, "cek": {"kty": "oct", "k": G.b64u(rng.randbytes(32))}, "pt": "0011", "rand": "44" * 16}))
     prod.append(("jwe.enc_cek_io", {"jwe": {"protected": {"enc": "A256GCM", "zip": "DEF"}}, "cek": {"kty": "oct", "k": G.b64u(rng.randbytes(32))},
                                     "feeds": ["0011", "", "22" * 40], "rand": "44" * 16}))
@@ -237,13 +243,13 @@ def run(ctx):
     n_mut = 60 if ctx.tier == "quick" else 600
     ops = []
     for o, a in bs:
-        ops.append((o, dict(a, _leakcheck=True)))
+        ops.append((o, dict(a, _leakcheck=True, _limit_ms=LIMIT_MS)))
         for _ in range(n_mut):
             root = {k: v for k, v in a.items() if k in JSON_ARGS}
             rest = {k: v for k, v in a.items() if k not in JSON_ARGS}
             for _ in range(rng.randrange(1, 5)):
                 root = edit(rng, root)
-            ops.append((o, dict(rest, _leakcheck=True, **root)))
+            ops.append((o, dict(rest, _leakcheck=True, _limit_ms=LIMIT_MS, **root)))
     pool = K.pool(ctx.jose)
     privs = {json.dumps({m: k.get(m) for m in RSA_PRIV}, sort_keys=True) for k in pool.values() if k.get("kty") == "RSA"}
     only_real = [x for x in ops if model_scope(x[0], x[1], privs)]
@@ -251,6 +257,9 @@ def run(ctx):
     ops = [x for x in ops if id(x) not in ids]
     for (o, a), r in zip(only_real, ctx.real(only_real)):
         ctx.evaluations += 1
+        if isinstance(r, dict) and r.get("timeout"):
+            ctx.count("cut-off after %d ms (%s)" % (LIMIT_MS, model_scope(o, a, privs)))
+            continue
         ctx.count("implementation-only:" + model_scope(o, a, privs))
         if isinstance(r, dict) and "crash" in r:
             ctx.pfails.append(("crash:" + o, r["crash"], o, a, r))
